@@ -718,3 +718,25 @@ pub fn base_psbt(case: &Case) -> Psbt {
     }
     psbt
 }
+
+pub const UTXO_VARIANTS: [&str; 5] = ["consistent", "amount-differs", "script-differs", "txid-differs", "vout-out-of-range"];
+
+/// A PSBT whose input `j` carries BOTH utxo fields; variant 0 is consistent, the others are what
+/// the checked updater must refuse: witness_utxo with another amount / another script, a
+/// non_witness_utxo that is not the referenced transaction, an outpoint beyond its outputs.
+pub fn both_utxo_base(case: &Case, pool: &Pool, j: usize, variant: usize) -> Psbt {
+    let mut p = base_psbt(case);
+    let m = &case.inputs[j];
+    let mut w = TxOut { value: m.value, script_pubkey: m.spk.clone() };
+    let mut prev = m.prev_tx.clone();
+    match variant {
+        1 => w.value = Amount::from_sat(m.value.to_sat() / 10 + 1),
+        2 => w.script_pubkey = p2wpkh_of(&pool.keys[pool.keys.len() - 2].pk),
+        3 => prev.version = transaction::Version::TWO,
+        4 => p.unsigned_tx.input[j].previous_output.vout = 7,
+        _ => {}
+    }
+    p.inputs[j].witness_utxo = Some(w);
+    p.inputs[j].non_witness_utxo = Some(prev);
+    p
+}
